@@ -422,6 +422,16 @@ func topFields(md protoreflect.MessageDescriptor) []string {
 
 func main() {
 	h := hx.New("C14")
+	for _, uo := range []bool{false, true} {
+		for _, n := range []int{1, 2} {
+			name := concurrentName(uo, n)
+			q := -1
+			if n == 2 {
+				q = -2
+			}
+			h.Sched(name, q, -1, concurrentBody(name, uo, n), hx.StdOracle)
+		}
+	}
 	h.Seq("servers", func(s *hx.Seq) {
 		var rc tcase
 		if s.Replaying(&rc) {
